@@ -417,6 +417,21 @@ func templates() []tmpl {
 			return []outSpec{{idA.Addr, outs[0].Coins, 1 << 63}, {idB.Addr, outs[1].Coins, 1<<63 + avail/4}}
 		})
 	})
+	// a valid signed payment whose HEADER a third party altered afterwards (no key needed): the recorded length, the type byte, the
+	// inner hash.  Every path into the pool must refuse it - in particular the path for the user's own submissions
+	hdrTamper := func(name string, f func(t *coin.Transaction)) {
+		add(name, func(m *ledger.Model) *coin.Transaction {
+			t := pay(m, idG, idA, 0, nil, 1, 2, nil)
+			if t == nil {
+				return nil
+			}
+			f(t)
+			return t
+		})
+	}
+	hdrTamper("hdr-length-plus-1-G", func(t *coin.Transaction) { t.Length++ })
+	hdrTamper("hdr-type-1-G", func(t *coin.Transaction) { t.Type = 1 })
+	hdrTamper("hdr-innerhash-bit-G", func(t *coin.Transaction) { t.InnerHash[31] ^= 1 })
 	add("wrong-signer-G", func(m *ledger.Model) *coin.Transaction { return pay(m, idG, idA, 0, &idB, 1, 2, nil) })
 	add("unsigned-G", func(m *ledger.Model) *coin.Transaction { return pay(m, idG, idA, 0, &ident{}, 1, 2, nil) })
 	add("dup-output-G", func(m *ledger.Model) *coin.Transaction {
